@@ -265,6 +265,8 @@ def replay(beh, workdir, seed, stats):
                     ro.move(d if own is None else own)
                 elif op == 'move_to':
                     p = rng.uniform(-5, 5, 3) if own is None else np.array(own, float).copy()
+                    if own is None and rng.random() < 0.4:
+                        p = c0 + rng.normal(size=3) * 10.0 ** (-float(rng.integers(3, 11)))      # a small re-centring
                     ro.move_to(p if own is None else own)
                 else:
                     from gaddlemaps import rotation_matrix
@@ -276,7 +278,7 @@ def replay(beh, workdir, seed, stats):
                 if op == 'move':
                     centre_ok = np.abs((c1 - c0) - d).max() <= 1e-9 and np.abs(after - before - d).max() <= 1e-9
                 elif op == 'move_to':
-                    centre_ok = np.abs(c1 - p).max() <= 1e-9
+                    centre_ok = np.abs(c1 - p).max() <= 1e-12 * max(1.0, float(np.abs(p).max()))
                 else:
                     centre_ok = np.abs(c1 - c0).max() <= 1e-9
                 stats['rigid'] += 1
